@@ -321,6 +321,20 @@ func newProvider(files map[string]string, logger util.Logger, workers int) *inte
 		logger = util.NewNullLogger()
 	}
 	erp := interpreter.NewECALRuntimeProvider("c13", &util.MemoryImportLocator{Files: files}, logger)
+	// No workload here uses cron triggers. Stop the cron goroutine right away: later
+	// (after its first 1 s tick) Cron.Stop of krotik/common can deadlock with the
+	// tick - Stop holds the cron lock while it hands over on an unbuffered channel
+	// and the cron loop takes that lock after every tick. Before the first tick the
+	// loop can only be in its select, so this handshake always completes.
+	// (Guarded all the same: should the handshake ever get stuck the two goroutines are
+	// abandoned and counted - never a verdict.)
+	stopped := make(chan struct{})
+	go func() { erp.Cron.Stop(); close(stopped) }()
+	select {
+	case <-stopped:
+	case <-time.After(10 * time.Second):
+		hx.E.Class("cron-stop-stuck", 1)
+	}
 	if workers > 0 && workers != erp.Processor.Workers() {
 		erp.Processor = engine.NewProcessor(workers)
 		erp.Processor.SetFailOnFirstErrorInTriggerSequence(true)
@@ -332,7 +346,7 @@ func closeProvider(erp *interpreter.ECALRuntimeProvider, started bool) {
 	if started {
 		erp.Processor.Finish()
 	}
-	erp.Cron.Stop()
+	// the cron goroutine was already stopped in newProvider
 }
 
 // newEvalEnv declares the sinks of c.Main on a fresh provider and starts the processor.
